@@ -743,6 +743,12 @@ def ser_part(seed, budget):
                 if a != b:
                     failures.append(pack(t, d, {"ser_options": so, "pass_through": flags}, kind="P", k_ok=True,
                                          why=["pass-through-result-not-completed-to-the-plain-result"], info={"pass_through": a[:300], "plain": b[:300]}))
+                # ... and with every option left to its default (serialization_default() reads the same settings as serialize)
+                pt0 = serialize(tp, v, no_copy=True, pass_through=PassThroughOptions(**flags))
+                a0 = _json.dumps(pt0, default=serialization_default(), sort_keys=True); b0 = _json.dumps(serialize(tp, v, no_copy=True), sort_keys=True)
+                if a0 != b0:
+                    failures.append(pack(t, d, {"ser_options": {}, "pass_through": flags}, kind="P", k_ok=True,
+                                         why=["pass-through-result-not-completed-to-the-plain-result"], info={"pass_through": a0[:300], "plain": b0[:300], "options": "defaults"}))
             except (TypeError, ValueError) as e:
                 # json.dumps cannot order / encode what pass-through legitimately leaves (sets, non-string keys): not comparable
                 pass
@@ -781,6 +787,12 @@ def run(prop, seed, budget, ctx):
         df, dn, dd, dh = run_discr(seed, budget, want={"C13": ("dispatch", "roundtrip", "tagged"), "C03": ("purity",), "C14": ("coerce",)}[prop])
         failures += df; distinct |= dd
         for k, v in dh.items(): hist["discriminated:" + k] += v
+        if prop == "C03":
+            # classes with validators (the error path runs the validators that can still run, on a mock of the object): whatever the data, a value or a ValidationError
+            import engine_validate
+            vf, vn, vd = engine_validate.e2e_nocrash(seed, budget)
+            for f in vf: hist["P:" + f["why"][0]] += 1
+            failures += vf; distinct |= vd; hist["validator-classes(no-crash)"] = vn; dn += vn
         extra_rule = "; discriminated unions (annotated discriminator with default / explicit / partial mapping, or inherited from a parent class; Literal discriminator fields, aliased or absent; alternatives with a flattened or pattern-properties field) and a TaggedUnion: " + \
                      {"C13": "dispatch = the mapped alternative alone, unknown / missing tag rejected, serialization adds the key and round-trips",
                       "C03": "input not modified, repeated deserialization stable, no crash",
